@@ -110,8 +110,18 @@ fn value(idx: u64, rng: &mut Rng, mon: &mut Mon) {
     }
     mon.seen("pairs", format!("{}->{}", driven, coupled));
     let sname = stack_name(&layers);
-    let kin = build(Arc::new(OPWKinematics::new(to_params(&rp))), &layers);
-    let q = if rng.bool(0.3) { joints_resting(rng, PI) } else { joints_uniform(rng, PI) };
+    let kin = build(Arc::new(make_solver(rng, &rp)), &layers);
+    let mut q = if rng.bool(0.3) { joints_resting(rng, PI) } else { joints_uniform(rng, PI) };
+    // a tenth of the postures has the inner robot's model J5 inside or next to the solver's 0.01 degree wrist
+    // band (1e-6 .. 3e-4 rad, not exactly singular): the continuation solver may then append a ninth answer
+    if rng.bool(0.1) && rp.signs[4] != 0 {
+        let inner = ref_inner_joints(&layers, &q);
+        let mut want = inner;
+        place_t5(&rp, &mut want, 0, rng.sign() * rng.logu(1e-6, 3e-4));
+        q[4] += want[4] - inner[4];
+        mon.count("postures_next_to_the_wrist_band");
+    }
+    let q = q;
     let reach = rp.reach() + layers.iter().map(|l| match l { Layer::Tool(f) | Layer::Base(f) | Layer::Frame(f) => norm(f.p), _ => 0.0 }).sum::<f64>();
     let ftol = 1e-11 * (1.0 + reach);
     let target = ref_forward(&rp, &layers, &q);
@@ -146,10 +156,19 @@ fn value(idx: u64, rng: &mut Rng, mon: &mut Mon) {
     // inverse entry points map back
     let pose = fr_to_iso(&target);
     let j6 = *rng.pick(&[0.0, 1.0, q[5]]);
+    // previous: near the generating vector (+-0.5), exactly it, it plus rounding-sized noise (1e-8 .. 1e-4 rad
+    // per joint, as when each step's answer is fed back on a slow trajectory), or the sentinel
     let mut prev = q;
+    let prev_class = rng.usize(20);
     for j in 0..6 {
-        prev[j] += rng.range(-0.5, 0.5);
+        match prev_class {
+            0..=7 => prev[j] += rng.range(-0.5, 0.5),
+            8..=11 => {}
+            12..=16 => prev[j] += rng.sign() * rng.logu(1e-8, 1e-4),
+            _ => prev = rs_opw_kinematics::kinematic_traits::CONSTRAINT_CENTERED,
+        }
     }
+    mon.count(&format!("value.prev.{}", match prev_class { 0..=7 => "near", 8..=11 => "generating", 12..=16 => "generating_plus_tiny_noise", _ => "sentinel" }));
     let has_tool = layers.iter().any(|l| matches!(l, Layer::Tool(_)));
     for e in ENTRIES {
         if (e.is_5dof() || rp.dof == 5) && has_tool && !axial {
@@ -170,7 +189,7 @@ fn value(idx: u64, rng: &mut Rng, mon: &mut Mon) {
             let dr = if point_only { 0.0 } else { rot_angle(&got.r, &target.r) };
             let lever: f64 = layers.iter().map(|l| match l { Layer::Tool(f) | Layer::Frame(f) => norm(f.p), _ => 0.0 }).sum();
             if !(dp <= 1e-6 * (1.0 + lever) + 1e-9 + 1e-12 * reach && dr <= 1e-6 + 1e-9) {
-                mon.violation(&format!("inverse-does-not-map-back:{}:{}", sig_stack, e.name()), "an inverse answer does not map back through the wrapper's forward onto the request", detail("map-back", json!({"entry": e.name(), "solution": jf(s), "dp": dp, "dr": dr})));
+                mon.violation(&format!("inverse-does-not-map-back:{}:{}", sig_stack, e.name()), "an inverse answer does not map back through the wrapper's forward onto the request", detail("map-back", json!({"entry": e.name(), "previous": jf(&prev), "solution": jf(s), "dp": dp, "dr": dr, "answers": sols.len()})));
             } else {
                 mon.held();
             }
